@@ -266,3 +266,18 @@ pub fn cross_table_lookup_data<F: RichField, const D: usize, const N: usize>(
         })
         .collect()
 }
+
+/// Shape validation of a STARK proof (without cross-table lookups).
+pub fn validate_proof_shape<F, C, S, const D: usize>(
+    stark: &S,
+    proof: &crate::proof::StarkProof<F, C, D>,
+    public_inputs: &[F],
+    config: &crate::config::StarkConfig,
+) -> anyhow::Result<()>
+where
+    F: plonky2::hash::hash_types::RichField + plonky2::field::extension::Extendable<D>,
+    C: plonky2::plonk::config::GenericConfig<D, F = F>,
+    S: crate::stark::Stark<F, D>,
+{
+    crate::verifier::verif_validate_proof_shape::<F, C, S, D>(stark, proof, public_inputs, config)
+}
